@@ -946,6 +946,9 @@ pub fn gen_query(rng: &mut Rng, table: &str, t: &MTable, cols: &QCols, kind: QKi
                 let numeric: Vec<&String> = apool.ints.iter().chain(apool.floats.iter()).collect();
                 let arg = if f == AggFn::Count && rng.below(2) == 0 {
                     Expr::I(1)
+                } else if kind == QKind::Agg && t.col_index("x").is_some() && rng.below(4) == 0 {
+                    // the column whose partitions differ in numeric type
+                    Expr::Col("x".into())
                 } else if kind == QKind::SumOverflow {
                     Expr::Col(rng.pick(&apool.ints).clone())
                 } else {
